@@ -513,6 +513,14 @@ def run(ctx, rep):
         # arguments: (is_exc, obj) parameters unchanged
         argok = all(len(c.args) == 2 and [getattr(a, "id", None) for a in c.args] == pc[3:5]
                     for n in cb_calls for c in A.calls(n.ast) if isinstance(c.func, ast.Name) and c.func.id == cbvar)
+        dm = _delivery_model(ctx)
+        if dm is not None:
+            # decided by evaluation of _dispatch on a reply / an exception / an unknown sequence number
+            rep.ob("R08.3", "_dispatch: a reply runs the callback registered under its seq exactly once with (False, value), an "
+                   "exception reply with (True, exception); the entry is removed; an unknown seq runs nothing", not dm,
+                   "4 messages evaluated" if not dm else "; ".join(dm)[:400], fc.loc, kind="model")
+            if not dm:
+                argok = okc = True        # (the structural reading only corroborates)
         rep.ob("R08.3", "_seq_request_callback: only the popped callback runs, at most once, with (is_exc, obj)",
                okc and argok,
                "the popped callback is called once with the unmodified (is_exc, obj)" if okc and argok else
@@ -631,3 +639,55 @@ def run(ctx, rep):
     # a message that was encoded by a conforming peer decodes: writer/reader agreement of the value codec (a decode failure in
     # _dispatch happens before any request/reply handling - the message is neither executed nor answered)
     K.share(ctx, rep, "c04", lambda o: o.rule in ("R04.3", "R04.6") or (o.rule == "R04.2" and "output buffer" in o.key), "R08.7", floor=20)
+
+
+def _delivery_model(ctx):
+    """deviations of Connection._dispatch on response messages (list), or None when it cannot be interpreted"""
+    from .. import miniinterp as MI
+    conn = ctx.cls(K.CONN)
+    fd = conn.methods["_dispatch"]
+    MSG_REPLY = ctx.const("rpyc.core.consts", "MSG_REPLY")
+    MSG_EXC = ctx.const("rpyc.core.consts", "MSG_EXCEPTION")
+    meths = {n_: m_.node for n_, m_ in conn.methods.items() if n_ not in ("_unbox", "_unbox_exc", "_dispatch_request")}
+    bad = []
+    try:
+        for label, msg, seq, registered, want in (
+                ("a reply", MSG_REPLY, 7, True, [(False, ("unboxed", "PAYLOAD"))]),
+                ("an exception reply", MSG_EXC, 7, True, [(True, ("exception", "PAYLOAD"))]),
+                ("a reply with sequence number 0", MSG_REPLY, 0, True, [(False, ("unboxed", "PAYLOAD"))]),
+                ("a reply nobody waits for", MSG_REPLY, 9, False, [])):
+            calls, other, still = [], [], []
+            table = {5: (lambda *a: other.append(a))}
+            if registered:
+                table[seq] = lambda *a, seq=seq: (still.append(seq in table), calls.append(a))[1]
+            hooks = {"brine.load": lambda data: (msg, seq, "PAYLOAD"), "self._unbox": lambda x: ("unboxed", x),
+                     "self._unbox_exc": lambda x: ("exception", x)}
+            for lv in ("debug", "info", "warning", "warn", "error"):
+                hooks["self._config['logger'].%s" % lv] = lambda *a, **k: None
+            class _NS:
+                mi_native = True
+            cns = _NS()
+            cm_ = ctx.module("rpyc.core.consts")
+            for nm_ in cm_.toplevel:
+                try:
+                    setattr(cns, nm_, ctx.const("rpyc.core.consts", nm_))
+                except Exception:
+                    pass
+            extra = {"__calls__": hooks, "__methods__": meths, "__max_iter__": 200, "__globals__": {"consts": cns}}
+            extra["__global_lookup__"] = K.module_function_lookup(ctx, fd.module, extra, skip=("brine", "consts"))
+            state = {"_request_callbacks": table, "_config": {"logger": None}, "_closed": False}
+            try:
+                MI.call_method(fd.node, state, ["DATA"], extra)
+                out = None
+            except MI.Raised as r_:
+                out = r_.name
+            if any(still):
+                bad.append("%s: the callback runs while its entry is still registered (looked up, run, removed afterwards): a reply "
+                           "dispatched concurrently - or a re-entrant serve inside the callback - completes the same request again" % label)
+            if out or calls != want or other or (registered and seq in table) or 5 not in table:
+                bad.append("%s: callback calls %r%s%s%s (expected %r, entry removed)" % (
+                    label, calls, ", raises %s" % out if out else "", ", another request's callback was run" if other else "",
+                    ", the entry stays registered" if registered and seq in table else "", want))
+    except (AnalysisError, KeyError):
+        return None
+    return bad
